@@ -785,7 +785,9 @@ def doctored_selftest(ctx, model, builder):
         da, db = builder.gen[vkey(lang, a)][0], builder.gen[vkey(lang, b)][0]
         if da is None or db is None:
             raise MachineryFailure("self-test vectors could not be generated")
-        ident = ("NUNAVUT_SUPPORT_LANGUAGE_OPTION_" + key.upper()) if lang == "c" else ("options::" + key + " ")
+        # the assertion is recognised by the option's identifier as a whole word anywhere inside a static_assert statement (operand order, brackets,
+        # namespace qualification and message wording are the templates' business)
+        ident = r"\bNUNAVUT_SUPPORT_LANGUAGE_OPTION_" + key.upper() + r"\b" if lang == "c" else r"\boptions::" + key + r"\b"
         base = tlc.validate_traces(ctx, "OptionGuardTrace", [record(0, lang, a, b, builder.build(lang, a, da, db), model.keys[lang])])
         if str(base.get(0, "")).startswith("guard"):
             res[(lang, "one")] = res[(lang, "all")] = None  # the unmodified pair already violates the property: nothing to demonstrate on
@@ -799,11 +801,12 @@ def doctored_selftest(ctx, model, builder):
                 if mode == "one" and h.name.split("_")[0] != "Un":
                     continue
                 txt = h.read_text()
-                new = re.sub(r"static_assert\(\s*[^;]*?" + re.escape(ident) + r"[^;]*?\);", "", txt, flags=re.S)
+                new = re.sub(r"static_assert\(\s*[^;]*?" + ident + r"[^;]*?\);", "", txt, flags=re.S)
                 n += new != txt
                 h.write_text(new)
-            if n == 0:
-                raise MachineryFailure("self-test could not find the assertion of %s in the generated %s headers" % (key, lang))
+            if n == 0:   # the doctoring does not recognise this tree's assertion text: the end-to-end self-test cannot be set up (the record-level ones remain)
+                res[(lang, mode)] = "not-set-up"
+                continue
             obs = builder.build(lang, a, doc, db)
             rec = record(0, lang, a, b, obs, model.keys[lang])
             rej = tlc.validate_traces(ctx, "OptionGuardTrace", [rec])
@@ -961,6 +964,10 @@ def run(ctx):
     for lang in ("c", "cpp"):
         if dres[(lang, "one")] is None and ctx.violations:
             ctx.not_exercised("end-to-end self-test for %s skipped: the unmodified pair already violates the property" % lang)
+            continue
+        if "not-set-up" in (dres[(lang, "one")], dres[(lang, "all")]):
+            ctx.not_exercised("end-to-end self-test for %s skipped: no static_assert statement naming the option was found in the generated type headers "
+                              "(the assertion may be spelled in a way the doctoring does not recognise)" % lang)
             continue
         ctx.selftest("end-to-end: assertion removed from one generated %s type header -> header_silent" % lang,
                      dres[(lang, "one")] == "guard.message.header_silent")
